@@ -384,6 +384,19 @@ def r23lex(ctx: Ctx) -> RuleReport:
                norm(fcall.func.value), where, key='_lex finditer receiver')
     arg_ok = len(fcall.args) == 1 and not fcall.keywords and isinstance(fcall.args[0], ast.Name) \
         and fcall.args[0].id == v_line
+    if not arg_ok and len(fcall.args) == 1 and not fcall.keywords:
+        a0 = fcall.args[0]
+        base = a0
+        while isinstance(base, (ast.Call, ast.Subscript, ast.Attribute)):
+            base = base.func.value if isinstance(base, ast.Call) and isinstance(base.func, ast.Attribute) else (base.value if not isinstance(base, ast.Call) else None)
+            if base is None:
+                break
+        if isinstance(base, ast.Name) and base.id == v_line and not isinstance(a0, ast.Name):
+            rep.add('_lex finditer argument', where, 'violation',
+                    f'the pattern runs over `{norm(a0)[:50]}`, a changed copy of the line, but the tokens are built with the match positions and with `{v_line}` itself: every '
+                    f'offset is relative to the copy - on an indented line each column is too small by the width of what was stripped, and line[offset:] no longer starts with the token text')
+            arg_ok = True       # reported; do not add the "not recognised" entry below
+            return rep
     cut = None
     if not arg_ok and len(fcall.args) >= 2:
         # the scan is bounded by a position that a textual search for one character produced: can that character stand inside a token?
@@ -885,6 +898,21 @@ def _check_evaluate_one(ctx, rep, ev: FuncInfo, first: bool, last: bool, quiet: 
                     if (isinstance(e.ops[0], ast.NotIn) and pol) or (isinstance(e.ops[0], ast.In) and not pol):
                         guard = set(vals)
         need = {'true', 'false', 'null'}
+        sub = None
+        for f, pol in facts:
+            try:
+                e = ast.parse(f, mode='eval').body
+            except SyntaxError:
+                continue
+            for cmp_ in [x for x in ast.walk(e) if isinstance(x, ast.Compare) and len(x.ops) == 1 and isinstance(x.ops[0], (ast.In, ast.NotIn))]:
+                if isinstance(cmp_.comparators[0], ast.Name) and cmp_.comparators[0].id == p and not (isinstance(cmp_.left, ast.Name) and cmp_.left.id == p):
+                    sub = (f, pol)
+        if guard is None and sub is not None:
+            rep.add('penman.constant:evaluate: literal-name guard', ev.loc(c), 'violation',
+                    f'json.loads is guarded by `{sub[0]}` being {sub[1]}: that asks whether a word is CONTAINED in the constant, not whether the constant IS the word - every '
+                    f'constant that has "true", "false" or "null" inside it ("untrue", "annulled", a quoted sentence) skips the decoder and comes back with its quotes and escapes, '
+                    f'so evaluate(quote(x)) != x')
+            continue
         rep.oblige('the JSON literal names true/false/null never reach json.loads', guard is not None and need <= guard,
                    f'guard set {sorted(guard) if guard else None}', ev.loc(c), key='penman.constant:evaluate: literal-name guard',
                    positive=guard is not None)
@@ -995,9 +1023,16 @@ def _check_evaluate_one(ctx, rep, ev: FuncInfo, first: bool, last: bool, quiet: 
                                    f'non-ASCII digits, underscores, surrounding blanks) and raise ValueError on others',
                ev.loc(), key=f'penman.constant:{ev.qualname}: no ad-hoc number conversion', positive=True)
     raises = set()
+    pm_r = ctx.repo.parent_map(ev.node)
     for n in walk_local(ev.node):
         if isinstance(n, ast.Raise) and n.exc is not None:
             raises.add(norm(n.exc.func) if isinstance(n.exc, ast.Call) else norm(n.exc))
+        elif isinstance(n, ast.Raise):
+            # a bare raise hands on what the enclosing handler caught
+            h = n
+            while id(h) in pm_r and not isinstance(h, ast.ExceptHandler):
+                h = pm_r[id(h)]
+            raises.add(f're-raise of {norm(h.type) if isinstance(h, ast.ExceptHandler) and h.type is not None else "the caught exception"}')
     rep.oblige('evaluate raises only ConstantError explicitly', raises <= {'ConstantError'}, f'{sorted(raises)}',
                ev.loc(), key=f'penman.constant:{ev.qualname}: explicit raises', positive=True)
     return filt
@@ -1016,3 +1051,53 @@ def try_fold_typemap(ctx):
     bad = [k for k in want if got.get(k) not in want[k]]
     extra = [k for k in got if k not in want]
     return (not bad and not extra), f'{got}'
+
+
+# ---------------------------------------------------------------------------------------------
+@rule('R129', 'lex() hands an iterable of lines on item by item: items are neither glued together nor cut at their first line break')
+def r129(ctx: Ctx) -> RuleReport:
+    from ..resolve import facts_ex
+    rep = RuleReport('R129', r129.title, floor=1)
+    fi = ctx.repo.func('penman._lexer', 'lex')
+    lp = fi.positional[0]
+    rebinds = [n for n in walk_local(fi.node) if isinstance(n, ast.Assign) and any(isinstance(t, ast.Name) and t.id == lp for t in n.targets)]
+    if not rebinds:
+        rep.ok(f'{fi.fq}: `{lp}` is passed on as it is for non-string input', fi.loc())
+    for n in rebinds:
+        fx = {(f.replace(' ', ''), pol) for f, pol in facts_ex(ctx, fi, n)}
+        is_str = (f'isinstance({lp},str)', True) in fx
+        v = n.value
+        key = f'{fi.fq}: `{norm(n)[:60]}`'
+        if is_str:
+            rep.ok(key, fi.loc(n), 'string input (R6 judges the splitter)')
+            continue
+        # non-string input (or both kinds)
+        if isinstance(v, ast.Call) and isinstance(v.func, ast.Attribute) and v.func.attr == 'join' and v.args and norm(v.args[0]) == lp:
+            oks, sep = try_fold(v.func.value)
+            rep.violation(key, fi.loc(n), f'the items of the iterable are glued together with {sep!r}: a list of lines WITHOUT terminators (text.split("\\n"), a generator of stripped '
+                          f'lines) becomes one long line - a comment then swallows the graph that follows it, tokens of neighbouring lines merge - while the same lines given '
+                          f'as one string, or read from a file, still decode')
+            continue
+        if isinstance(v, (ast.GeneratorExp, ast.ListComp)) and len(v.generators) == 1 and norm(v.generators[0].iter) == lp and isinstance(v.generators[0].target, ast.Name):
+            tv = v.generators[0].target.id
+            if v.generators[0].ifs:
+                rep.violation(key, fi.loc(n), f'items are filtered with {[norm(c) for c in v.generators[0].ifs]}: lines disappear before they are counted and scanned')
+                continue
+            e = v.elt
+            first_part = [x for x in ast.walk(e) if isinstance(x, ast.Subscript) and try_fold(x.slice) == (True, 0) and isinstance(x.value, ast.Call)
+                          and isinstance(x.value.func, ast.Attribute) and x.value.func.attr in ('split', 'partition', 'splitlines', 'rsplit')]
+            if first_part:
+                rep.violation(key, fi.loc(n), f'each item is replaced by `{norm(first_part[0])[:50]}`, the text BEFORE its first line break: an item that holds more than one physical line '
+                              f'(a multi-line graph block in a list) loses everything after the first break - no tokens are produced for the rest, characters are silently skipped')
+            elif isinstance(e, ast.Name) and e.id == tv:
+                rep.ok(key, fi.loc(n), 'items unchanged')
+            elif isinstance(e, ast.Call) and isinstance(e.func, ast.Attribute) and e.func.attr in ('rstrip',) and norm(e.func.value) == tv:
+                rep.add(key, fi.loc(n), 'info', 'trailing characters are stripped from each item (R111 judges the character set)')
+            else:
+                rep.undecided(key, fi.loc(n), norm(e)[:60])
+            continue
+        if isinstance(v, ast.Call) and (norm(v.func) in ('re.split',) or (isinstance(v.func, ast.Attribute) and v.func.attr in ('split', 'splitlines'))):
+            rep.add(key, fi.loc(n), 'info', 'a split of the whole text (R6 judges the splitter and the condition it stands under)')
+            continue
+        rep.undecided(key, fi.loc(n), norm(v)[:60])
+    return rep
